@@ -141,6 +141,7 @@ func run(r *hk.Run) {
 		var out []byte
 		p := toPCO(us)
 		panicked, pv := hk.Catch(func() { out = p.Marshal() })
+		r.Retain("nasConvert.ProtocolConfigurationOptions.Marshal", coqUnits(us), out)
 		id := r.NextID()
 		desc := "Marshal " + coqUnits(us)
 		if panicked {
